@@ -679,6 +679,8 @@ impl TxPoolService {
         let (ret, snapshot) = self.pre_check(&tx).await;
 
         let (tip_hash, rtx, status, fee, tx_size) = try_or_return_with_snapshot!(ret, snapshot);
+        #[cfg(feature = "verif-hooks")]
+        crate::verif::yield_point("tx.after_pre_check").await;
 
         let verify_cache = self.fetch_tx_verify_cache(&tx).await;
         let max_cycles = declared_cycles.unwrap_or_else(|| self.consensus.max_block_cycles());
@@ -711,6 +713,8 @@ impl TxPoolService {
         }
 
         let entry = TxEntry::new(rtx, verified.cycles, fee, tx_size);
+        #[cfg(feature = "verif-hooks")]
+        crate::verif::yield_point("tx.before_submit").await;
 
         let (ret, submit_snapshot) = self.submit_entry(tip_hash, entry, status).await;
         try_or_return_with_snapshot!(ret, submit_snapshot);
